@@ -33,6 +33,8 @@ type reconnectState struct {
 	nextDelay   time.Duration
 	lastAttempt time.Time
 	timer       *time.Timer
+	timerGen    uint64 // generation of the armed timer; a firing with another generation is stale
+	inFlight    bool   // the callback of an attempt is running
 }
 
 // Reconnector handles automatic reconnection with exponential backoff.
@@ -44,6 +46,7 @@ type Reconnector struct {
 	states map[string]*reconnectState
 	closed bool
 	paused bool
+	gen    uint64 // last timer generation handed out
 }
 
 // NewReconnector creates a new reconnector.
@@ -72,6 +75,13 @@ func (r *Reconnector) Schedule(addr string) {
 		r.states[addr] = state
 	}
 
+	// An attempt is running: its outcome re-arms the timer (failure) or
+	// clears the state (success). Arming a second timer here would start
+	// overlapping attempts and advance the backoff twice per failure.
+	if state.inFlight {
+		return
+	}
+
 	// Cancel any existing timer
 	if state.timer != nil {
 		state.timer.Stop()
@@ -83,20 +93,42 @@ func (r *Reconnector) Schedule(addr string) {
 		return
 	}
 
+	// Schedule reconnect
+	r.arm(addr, state)
+}
+
+// arm (re)arms the single reconnect timer of state with the jittered current
+// delay. The caller holds r.mu.
+func (r *Reconnector) arm(addr string, state *reconnectState) {
+	if state.timer != nil {
+		state.timer.Stop()
+	}
+	r.gen++
+	gen := r.gen
+	state.timerGen = gen
+
 	// Calculate delay with jitter
 	delay := r.addJitter(state.nextDelay)
 
-	// Schedule reconnect
 	state.timer = time.AfterFunc(delay, func() {
-		r.attemptReconnect(addr)
+		r.attemptReconnect(addr, gen)
 	})
 }
 
-// attemptReconnect attempts to reconnect to the given address.
-func (r *Reconnector) attemptReconnect(addr string) {
+// attemptReconnect attempts to reconnect to the given address. gen identifies
+// the timer that fired.
+func (r *Reconnector) attemptReconnect(addr string, gen uint64) {
 	r.mu.Lock()
 	state, exists := r.states[addr]
 	if !exists || r.closed {
+		r.mu.Unlock()
+		return
+	}
+
+	// Only the most recently armed timer of the current state may start an
+	// attempt: a timer that could not be stopped in time, or one that
+	// belongs to a state that was reset meanwhile, is stale.
+	if state.timerGen != gen {
 		r.mu.Unlock()
 		return
 	}
@@ -109,6 +141,7 @@ func (r *Reconnector) attemptReconnect(addr string) {
 		return
 	}
 
+	state.inFlight = true
 	state.attempts++
 	state.lastAttempt = time.Now()
 
@@ -126,7 +159,15 @@ func (r *Reconnector) attemptReconnect(addr string) {
 	r.mu.Lock()
 	defer r.mu.Unlock()
 
+	state.inFlight = false
+
 	if r.closed {
+		return
+	}
+
+	// The address was cancelled or reset (and possibly scheduled afresh)
+	// while the callback ran: this attempt no longer owns its schedule.
+	if r.states[addr] != state {
 		return
 	}
 
@@ -139,10 +180,7 @@ func (r *Reconnector) attemptReconnect(addr string) {
 				state.timer = nil
 				return
 			}
-			delay := r.addJitter(state.nextDelay)
-			state.timer = time.AfterFunc(delay, func() {
-				r.attemptReconnect(addr)
-			})
+			r.arm(addr, state)
 		} else {
 			// Max attempts reached, clean up
 			delete(r.states, addr)
